@@ -18,7 +18,7 @@ META = {
                    "pairs, each |A|,|B|<=S and each operator/predicate, all span ends are unbounded solver variables "
                    "(overlapping, nested, repeated, touching spans are all paths decided by z3); results are compared "
                    "with an independent evaluation of the defining membership formulas.",
-    "bounds": {"quick": {"S": 2, "families": "ints"}, "thorough": {"S": "3 for &,|,-,^,<=; 2 for the rest", "families": "ints, reals (S=2)"}},
+    "bounds": {"quick": {"S": 2, "families": "ints"}, "thorough": {"S": "one operand with 3 spans, the other <=1 for &,|,-,^,<= and 2 for &,^,<= (3x3 not included: a single job needs > 15 min); 2 for the rest", "families": "ints, reals (S=2)"}},
     "outside_bounds": ["more spans per operand than S", "spans with start > end", "NaN/inf ends",
                        "user-defined relations other than the four shipped ones"],
     "assumptions": ["floats are modelled as finite reals (exact for comparisons)",
@@ -266,8 +266,8 @@ def jobs(tier):
     if tier == "thorough":
         for ra in RELS:
             for rb in RELS:
-                for (na, nb) in ((3, 1), (1, 3), (3, 2), (2, 3), (3, 3), (3, 0), (0, 3)):
-                    for obs in ("and", "or", "sub", "xor", "le"):
+                for (na, nb) in ((3, 1), (1, 3), (3, 2), (2, 3), (3, 0), (0, 3)):
+                    for obs in (("and", "or", "sub", "xor", "le") if min(na, nb) <= 1 else ("and", "xor", "le")):
                         out.append(Job("C10", "harness.c10", "ops_int", {"ra": ra, "rb": rb, "na": na, "nb": nb, "obs": obs},
                                        timeout=2400, name="ops[%s,%s,%d,%d,%s]" % (ra, rb, na, nb, obs)))
                 for na in range(1, 3):
